@@ -41,7 +41,7 @@ def shards(tier, prop):
         return [{'kind': 'py', 'module': 'vk.simh', 'fn': 'validate_fakepd', 'cond_timeout': 120, 'name': 'stub-validation:pandas'}]
     if prop in ('C12', 'C13', 'C19', 'C02', 'C03', 'C08'):
         out = timing_family(props, tier)
-        if prop in ('C12', 'C02', 'C09'):
+        if prop == 'C12':     # a legal but degenerate setting (no global minimum): only the table column is asserted there
             out.append(G('two', [(0, 2), (2, 3), (3, 4), (0, 2), (0, 2), (1, 1), (2, 2), (5, 5)], props, alg='batch0split', machines=[10, 20]))
         if prop == 'C02':
             out += [G('two', R_TWO, props, alg=a) for a in ('reserve1', 'reserve2')]
